@@ -5,6 +5,7 @@ from decimal import Decimal, ROUND_HALF_UP, ROUND_DOWN, ROUND_UP
 import schedula as sh
 from pyvc.contract import Contract, RealT, IntT, OneOf, ConstT, BoolT, StrT, ErrT, TupleT
 from pyvc.bounded import Stage
+from pyvc.spec import same_object
 from formulas.tokens.operand import DIV, NUM, VALUE, NA
 
 CONTRACTS = []
@@ -143,6 +144,80 @@ def _(b1, v1, b2, v2, result):
 @c_ifs.canary('canary:never-NA')
 def _(b1, v1, b2, v2, result):
     return result is not NA
+
+
+# SWITCH: the first key equal to the value in Excel's sense (same kind; text without regard to case) selects
+def xl_equal(a, b):
+    """Excel's `=` between two scalars of the kinds number / logical / text: never true across kinds."""
+    if isinstance(a, bool) or isinstance(b, bool):
+        return isinstance(a, bool) and isinstance(b, bool) and a == b
+    if isinstance(a, str) or isinstance(b, str):
+        return isinstance(a, str) and isinstance(b, str) and a.upper() == b.upper()
+    return a == b
+
+
+def lemma_switch_default(val, k1, v1, default):
+    from formulas.functions.logic import xswitch
+    return xswitch(val, k1, v1, default)
+
+
+def lemma_switch_two(val, k1, v1, k2, v2):
+    from formulas.functions.logic import xswitch
+    return xswitch(val, k1, v1, k2, v2)
+
+
+Key = OneOf(RealT(), BoolT(), StrT(), ErrT())
+Sel = OneOf(RealT(), BoolT(), StrT())          # an error or blank selector never reaches the kernel (check_error / replace_empty)
+c_sw1 = Contract(lambda: lemma_switch_default, dict(val=Sel, k1=Key, v1=Any, default=Any), 'C12', name='xswitch[1 pair + default]',
+                 use=[], float_mode='real')
+c_sw2 = Contract(lambda: lemma_switch_two, dict(val=Sel, k1=Key, v1=Any, k2=Key, v2=Any), 'C12', name='xswitch[2 pairs]',
+                 use=[], float_mode='real')
+CONTRACTS += [c_sw1, c_sw2]
+
+
+@c_sw1.ensures('first-equal-key-selects-else-the-default', 'P')
+def _(val, k1, v1, default, result):
+    from formulas.tokens.operand import XlError
+    if isinstance(k1, XlError):
+        return same_object(result, k1)
+    return same_object(result, v1 if xl_equal(val, k1) else default)
+
+
+@c_sw2.ensures('first-equal-key-selects-else-NA-errors-in-keys-surface-in-order', 'P')
+def _(val, k1, v1, k2, v2, result):
+    from formulas.tokens.operand import XlError
+    if isinstance(k1, XlError):
+        return same_object(result, k1)
+    if xl_equal(val, k1):
+        return same_object(result, v1)
+    if isinstance(k2, XlError):
+        return same_object(result, k2)
+    return same_object(result, v2 if xl_equal(val, k2) else NA)
+
+
+@c_sw1.canary('canary:default-never-used')
+def _(val, k1, v1, default, result):
+    return same_object(result, v1) or same_object(result, k1)
+
+
+@c_sw2.canary('canary:second-pair-never-used')
+def _(val, k1, v1, k2, v2, result):
+    return same_object(result, v1) or same_object(result, k1) or result is NA
+
+
+c_ifna = Contract('formulas.functions.logic:xifna', dict(val=Any, val_if_error=Any), 'C12', name='xifna', use=[], float_mode='real')
+CONTRACTS.append(c_ifna)
+
+
+@c_ifna.ensures('replaces-NA-only', 'P')
+def _(val, val_if_error, result):
+    return same_object(result, val_if_error if val is NA else val)
+
+
+@c_ifna.canary('canary:replaces-every-error')
+def _(val, val_if_error, result):
+    from formulas.tokens.operand import XlError
+    return same_object(result, val_if_error if isinstance(val, XlError) else val)
 
 
 # ====================================================================================
@@ -478,6 +553,254 @@ def _check_agg(case):
     return None
 
 
+# ---- logical, information and counting functions ---------------------------------------
+LCELLS = [1, 0, 2.5, -3, 'txt', '', True, False, sh.EMPTY, 7]
+LERR = [NA, DIV, VALUE]
+LOGICALS = ['AND', 'OR', 'XOR']
+INFOS = ['ISNUMBER', 'ISTEXT', 'ISNONTEXT', 'ISLOGICAL', 'ISBLANK', 'ISNA', 'ISERR', 'ISERROR']
+
+
+def _is_err(v):
+    from formulas.tokens.operand import XlError
+    return isinstance(v, XlError)
+
+
+def _flat_cells(args):
+    """(value, typed?) of every argument element in argument order, ranges and arrays row-major."""
+    for kind, v in args:
+        if kind == 'typed':
+            yield v, True
+        else:
+            for x in v:
+                yield x, False
+
+
+def _spec_logic(name, args):
+    for v, typed in _flat_cells(args):
+        if _is_err(v):
+            return v
+    vals = [bool(v) for v, typed in _flat_cells(args) if isinstance(v, bool) or _is_num(v)]
+    if not vals:
+        return VALUE
+    if name == 'AND':
+        return all(vals)
+    if name == 'OR':
+        return any(vals)
+    return sum(vals) % 2 == 1
+
+
+def _spec_info(name, v):
+    if name == 'ISNUMBER':
+        return _is_num(v)
+    if name == 'ISTEXT':
+        return isinstance(v, str) and not _is_err(v) and v is not sh.EMPTY
+    if name == 'ISNONTEXT':
+        return not (isinstance(v, str) and not _is_err(v) and v is not sh.EMPTY)
+    if name == 'ISLOGICAL':
+        return isinstance(v, bool)
+    if name == 'ISBLANK':
+        return v is sh.EMPTY
+    if name == 'ISNA':
+        return v is NA
+    if name == 'ISERR':
+        return _is_err(v) and v is not NA
+    if name == 'ISERROR':
+        return _is_err(v)
+    raise KeyError(name)
+
+
+def _spec_not(v):
+    if _is_err(v):
+        return v
+    if v is sh.EMPTY:
+        return True
+    if isinstance(v, str):
+        return VALUE
+    return not v
+
+
+def _spec_parity(name, v):
+    if _is_err(v):
+        return v
+    if isinstance(v, bool):
+        return VALUE
+    if v is sh.EMPTY:
+        v = 0
+    if isinstance(v, str):
+        try:
+            v = float(v)
+        except ValueError:
+            return VALUE
+    odd = math.trunc(v) % 2 == 1
+    return odd if name == 'ISODD' else not odd
+
+
+def _spec_count(name, args):
+    if name == 'COUNTA':
+        return sum(1 for v, typed in _flat_cells(args) if v is not sh.EMPTY)
+    if name == 'COUNTBLANK':
+        return sum(1 for v, typed in _flat_cells(args) if v is sh.EMPTY or (isinstance(v, str) and not _is_err(v) and v == ''))
+    raise KeyError(name)
+
+
+def _spec_rank(name, cells, k):
+    for v in cells:
+        if _is_err(v):
+            return v
+    nums = sorted((float(v) for v in cells if _is_num(v)), reverse=(name == 'LARGE'))
+    if k < 1 or k > len(nums):
+        return NUM
+    return nums[k - 1]
+
+
+def _spec_sumproduct(rows):
+    if len({len(r) for r in rows}) != 1:
+        return VALUE
+    for r in rows:
+        for v in r:
+            if _is_err(v):
+                return v            # which error surfaces first is not settled; any of them is checked below
+    return float(sum(math.prod((float(v) if _is_num(v) else 0.0) for v in col) for col in zip(*rows)))
+
+
+def _logic_cases(rng, n):
+    out = []
+    for _ in range(n):
+        args = []
+        for _ in range(rng.randrange(1, 4)):
+            r = rng.random()
+            if r < 0.3:
+                args.append(('typed', rng.choice([1, 0, 2.5, True, False, True, False] + ([rng.choice(LERR)] if rng.random() < 0.3 else []))))
+            else:
+                cells = [rng.choice(LCELLS) for _ in range(rng.randrange(1, 6))]
+                if rng.random() < 0.12:
+                    cells[rng.randrange(len(cells))] = rng.choice(LERR)
+                args.append((rng.choice(['range', 'array']), tuple(cells)))
+        out.append(('logic', rng.choice(LOGICALS), args))
+    scal = LCELLS + LERR
+    for name in INFOS:
+        for v in scal:
+            out.append(('info', name, [('typed', v)]))
+        for _ in range(max(2, n // 40)):
+            out.append(('info', name, [(rng.choice(['range', 'array']), tuple(rng.choice(scal) for _ in range(rng.randrange(1, 6))))]))
+    for v in scal:
+        out.append(('not', 'NOT', [('typed', v)]))
+        for name in ('ISODD', 'ISEVEN'):
+            out.append(('parity', name, [('typed', v)]))
+    for v in [3, -3, 2.5, -2.5, 1e6 + 1, '4', '5', 'x', 0.5, -0.5, 7.999]:
+        for name in ('ISODD', 'ISEVEN'):
+            out.append(('parity', name, [('typed', v)]))
+    for _ in range(max(5, n // 10)):
+        out.append(('not', 'NOT', [('array', tuple(rng.choice(scal) for _ in range(rng.randrange(1, 5))))]))
+    vals = [1, 0, 2.5, 'a', 'A', '', True, False]
+    for _ in range(n // 2):
+        # IFERROR / IFNA element-wise; SWITCH over scalars
+        cells = tuple(rng.choice([1, 'a', True, 0, 2.5] + LERR) for _ in range(rng.randrange(1, 5)))
+        alt = rng.choice([0, 'alt', False, NA])
+        out.append(('iferr', rng.choice(['IFERROR', 'IFNA']), [rng.choice([('array', cells), ('typed', cells[0])]), ('typed', alt)]))
+        k = rng.randrange(1, 4)
+        pairs = []
+        for _ in range(k):
+            pairs += [rng.choice(vals + ([DIV] if rng.random() < 0.1 else [])), rng.choice(['r1', 'r2', 3, True])]
+        if rng.random() < 0.5:
+            pairs.append('dflt')
+        out.append(('switch', 'SWITCH', [('typed', rng.choice(vals[:-1] + [NA] if rng.random() < 0.1 else vals))] + [('typed', p) for p in pairs]))
+    for _ in range(n // 2):
+        cells = tuple(rng.choice(LCELLS + ([rng.choice(LERR)] if rng.random() < 0.1 else [])) for _ in range(rng.randrange(1, 7)))
+        kind = rng.choice(['range', 'array'])
+        out.append(('count', 'COUNTA', [(kind, cells)] + [('typed', rng.choice([1, 'x', '', True, 2.5])) for _ in range(rng.randrange(0, 3))]))
+        out.append(('count', 'COUNTBLANK', [('range', cells)]))
+        out.append(('rank', rng.choice(['LARGE', 'SMALL']), [(kind, cells), ('typed', rng.randrange(0, 6))]))
+        m = rng.randrange(1, 5)
+        rows = [tuple(rng.choice([1, 2, -3, 0.5, 'a', True, sh.EMPTY, 4] + ([NA] if rng.random() < 0.05 else [])) for _ in range(m if rng.random() < 0.9 else m + 1))
+                for _ in range(rng.randrange(1, 4))]
+        out.append(('sumproduct', 'SUMPRODUCT', [(rng.choice(['range', 'array']), r) for r in rows]))
+    return out
+
+
+def _call(name, args):
+    f = _F()[name]
+    f = f['function'] if isinstance(f, dict) else f
+    return f(*_build(args))
+
+
+def _elementwise(got, cells):
+    import numpy as np
+    g = np.asarray(got, object).ravel().tolist()
+    return g if len(g) == len(cells) else None
+
+
+def _check_logic(case):
+    kind, name, args = case
+    try:
+        raw = _call(name, args)
+    except Exception as ex:
+        return '%s%r raised %s' % (name, args, type(ex).__name__)
+    got = _v(raw)
+    if kind == 'logic':
+        want = _spec_logic(name, args)
+        if _is_err(want):
+            errs = [v for v, t in _flat_cells(args) if _is_err(v)]
+            ok = any(got is e for e in errs) if len(errs) > 1 else got is want     # several errors: which one is not settled
+        else:
+            ok = _eqv(bool(got) if isinstance(got, (bool,)) or type(got).__name__ == 'bool_' else got, want)
+        return None if ok else '%s%r = %r, Excel definition gives %r' % (name, args, got, want)
+    if kind in ('info', 'not', 'parity', 'iferr'):
+        a0 = args[0]
+        cells = [a0[1]] if a0[0] == 'typed' else list(a0[1])
+        if kind == 'info':
+            want = [_spec_info(name, v) for v in cells]
+        elif kind == 'not':
+            want = [_spec_not(v) for v in cells]
+        elif kind == 'parity':
+            want = [_spec_parity(name, v) for v in cells]
+        else:
+            alt = args[1][1]
+            hit = (lambda v: _is_err(v)) if name == 'IFERROR' else (lambda v: v is NA)
+            want = [alt if hit(v) else v for v in cells]
+        g = _elementwise(raw.value if hasattr(raw, 'ranges') else raw, cells)
+        if g is None:
+            return '%s%r = %r: expected one result per element' % (name, args, got)
+        for x, w, v in zip(g, want, cells):
+            x = x.item() if hasattr(x, 'item') and not isinstance(x, str) else x
+            if not (_eqv(x, w) or (x is w)):
+                return '%s(%r) = %r, Excel definition gives %r (in %r)' % (name, v, x, w, args)
+        return None
+    if kind == 'switch':
+        vals = [a[1] for a in args]
+        val, rest = vals[0], vals[1:]
+        want = None
+        if _is_err(val):
+            want = val
+        else:
+            for k, v in zip(rest[::2], rest[1::2]):
+                if _is_err(k):
+                    want = k
+                    break
+                if xl_equal(val, k):
+                    want = v
+                    break
+            else:
+                want = rest[-1] if len(rest) % 2 else NA
+        return None if (_eqv(got, want) or got is want) else 'SWITCH%r = %r, Excel definition gives %r' % (tuple(vals), got, want)
+    if kind == 'count':
+        want = _spec_count(name, args)
+        return None if _eqv(got, want) else '%s%r = %r, Excel definition gives %r' % (name, args, got, want)
+    if kind == 'rank':
+        want = _spec_rank(name, list(args[0][1]), args[1][1])
+        return None if (_eqv(got, want) or got is want) else '%s%r = %r, Excel definition gives %r' % (name, args, got, want)
+    if kind == 'sumproduct':
+        rows = [list(a[1]) for a in args]
+        want = _spec_sumproduct(rows)
+        errs = [v for r in rows for v in r if _is_err(v)]
+        if errs:      # which error surfaces (or #VALUE! for unequal sizes) is not settled by the statement
+            ok = any(got is v for v in errs) or (want is VALUE and got is VALUE)
+        else:
+            ok = _eqv(got, want) or got is want
+        return None if ok else 'SUMPRODUCT%r = %r, Excel definition gives %r' % (rows, got, want)
+    raise KeyError(kind)
+
+
 def _cases(tier, rng):
     out = []
     for name in MATH1:
@@ -501,6 +824,7 @@ def _cases(tier, rng):
             out.append(('math', name, [x, rng.choice([-4, -2, -0.5, 0.25, 0.5, 1, 2, 3, 5])]))
     out += _text_cases(rng, n)
     out += _agg_cases(rng, 3 * n)
+    out += _logic_cases(rng, n)
     return out
 
 
@@ -509,7 +833,9 @@ def _check(case):
         return _check_math(case)
     if case[0] == 'text':
         return _check_text(case)
-    return _check_agg(case)
+    if case[0] == 'agg':
+        return _check_agg(case)
+    return _check_logic(case)
 
 
 def _float_artifact(case):
@@ -536,7 +862,9 @@ BOUNDED = [
     Stage('B1:core-functions-against-excel-definitions', 'C12', _cases, _check,
           '20 unary / 9 binary mathematical functions over 23 numbers (halves, 1.15, 2.675, large, tiny) x second arguments, random decimals; '
           '12 text functions over 10 texts x positions; 14 aggregations over random mixtures of typed arguments, ranges and array literals '
-          '(referenced vs typed rule, order invariance)', classify=_classify, max_report=100000),
+          '(referenced vs typed rule, order invariance); logical (AND OR XOR NOT IFERROR IFNA SWITCH), information (8 IS... functions, ISODD, '
+          'ISEVEN) and counting / ranking functions (COUNTA COUNTBLANK LARGE SMALL SUMPRODUCT) over scalars of every kind, ranges and arrays',
+          classify=_classify, max_report=100000),
 ]
 
 PROPERTIES = {
